@@ -1,6 +1,6 @@
 """C04 - ZINC writer emits spec-conformant text that denotes the grid."""
 from .. import gen, model, rt, zinc_ref
-from .c01 import SIZES_RULE
+from .c01 import SIZES_RULE, FO_RULE
 from ..core import Acc, Violation, guarded, run_hypothesis, shard_seed
 
 PROPERTY = 'C04'
@@ -10,7 +10,7 @@ RULE = ('the grids of C01 (URIs without C0 controls) are dumped by hszinc and th
         'cell per column, only the escapes \\b \\f \\n \\r \\t \\" \\\\ \\$ \\uXXXX in strings and \\\\ \\` \\uXXXX in URIs, no '
         'raw char < U+0020 inside literals, INF/-INF/NaN, digits starting with a digit, tag-name syntax, 3.0-only '
         'constructs only under >= 3.0, Bin literal only under < 3.0, final newline) and the value it reads must equal the '
-        'model (exact; coordinates to six decimals). Same for dump_scalar. Non-trivial and distinct as C01.' + SIZES_RULE)
+        'model (exact; coordinates to six decimals). Same for dump_scalar. Non-trivial and distinct as C01.' + SIZES_RULE + FO_RULE)
 ASSUMPTIONS = ['conformance is judged against the harness\'s transcription of the Project Haystack ZINC grammar (Appendix A); '
                'constructs that could not be confirmed offline are accepted by the reader, never required',
                'URIs contain no C0 controls (the reference implementations disagree on URI escapes beyond \\\\ \\` \\uXXXX)']
@@ -64,6 +64,7 @@ def plan(tier, seed, excl):
     t += [('catalogue-grids', {'shard': i, 'of': 2}) for i in range(2)]
     t += [('scalars', {'shard': i, 'n': 6000 if q else 80000}) for i in range(6)]
     t += [('sizes', {'shard': i, 'of': 8, 'tier': tier}) for i in range(8)]
+    t.append(('fixed-offset', {}))
     t += [('grids', {'shard': i, 'n': 2500 if q else 40000}) for i in range(16)]
     return t
 
@@ -96,6 +97,8 @@ def run(part, args, env):
             except Violation as v:
                 acc.violation(v)
         acc.exhaustive['every kind sample x every position x versions'] = True
+    elif part == 'fixed-offset':
+        rt.fixed_offset_part(acc, 'zinc', 'ref')
     elif part == 'sizes':
         from .c01 import sizes_part
         sizes_part(acc, args, check_doc)
@@ -137,6 +140,8 @@ def _has_c0_uri(m):
 
 
 def replay(stage, case):
+    if case['kind'] == 'fixed-offset':
+        return rt.check_fixed_offset(case, 'zinc', 'ref')
     if case['kind'] == 'scalar':
         check_scalar(case)
     else:
